@@ -139,6 +139,9 @@ func (h accountsResourceHandler) Expand(opts common.ResourceQuery[any], property
 			return nil, nil, common.NewErrInvalidQuery("feature %s must be 'ON' to use volumes", features.FeatureMovesHistory)
 		}
 	case "effectiveVolumes":
+		if opts.UsePIT() && !h.store.ledger.HasFeature(features.FeatureMovesHistory, "ON") {
+			return nil, nil, common.NewErrInvalidQuery("feature %s must be 'ON' to use effectiveVolumes at a point in time", features.FeatureMovesHistory)
+		}
 		if !h.store.ledger.HasFeature(features.FeatureMovesHistoryPostCommitEffectiveVolumes, "SYNC") {
 			return nil, nil, common.NewErrInvalidQuery("feature %s must be 'SYNC' to use effectiveVolumes", features.FeatureMovesHistoryPostCommitEffectiveVolumes)
 		}
